@@ -235,7 +235,9 @@ fn check_try_lock(fair: bool, queue: &[usize]) {
     kit::arm();
     let g = w.mx.try_lock();
     kit::disarm();
-    assert!(g.is_some() == (!was_locked && (!fair || w.nq == 0)), "[C02] [C04] try_lock succeeds exactly on a free mutex (fair: with nobody queued)");
+    assert!(g.is_none() || !was_locked, "[C02] try_lock succeeds only on a free mutex");
+    assert!(g.is_none() || !fair || w.nq == 0, "[C04] fair: try_lock succeeds only with nobody queued (no barging)");
+    assert!(g.is_some() || was_locked || (fair && w.nq > 0), "[C03] try_lock succeeds whenever the mutex is free and (unfair, or nobody queued)");
     assert!(w.mx.is_locked() == (was_locked || g.is_some()), "[C02] is_locked() is true exactly while a guard is alive");
     assert!(kit::total_wakes() == 0, "[C03] try_lock wakes nobody");
     assert!(queue_ok(&w), "[C01] queue untouched by try_lock");
